@@ -38,6 +38,7 @@ def required(tier):
         "grammars.modular": 10,
         "grammars.with_priorities": 20,
         "grammars.multi_revisit": 5,
+        "grammars.with_dynamic_marks": 20,
     }
 
 
@@ -170,7 +171,24 @@ def run(ctx):
                     if ctx.rng.random() < 0.4:
                         meta[pi] = ctx.rng.choice(["1", "5", "15", "20", "left", "right", "left, 5", "right, 15"])
                 ctx.count("grammars.with_priorities")
-            batch.append({"grammar": g.text(prod_meta=meta), "inputs": inputs})
+            gtext = g.text(prod_meta=meta)
+            if ctx.rng.random() < 0.3:
+                # dynamic marks (several terminals / productions per state): part of the table too
+                lines = gtext.split("\n")
+                k = lines.index("terminals") if "terminals" in lines else len(lines)
+                for i in range(len(lines)):
+                    if lines[i].endswith(";") and ctx.rng.random() < 0.6:
+                        if i > k and "{" not in lines[i]:
+                            lines[i] = lines[i][:-1] + " {dynamic};"
+                gtext = "\n".join(lines)
+                for pi in range(len(g.prods)):
+                    if pi not in meta and ctx.rng.random() < 0.4:
+                        meta[pi] = "dynamic"
+                lines2 = g.text(prod_meta=meta).split("\n")
+                k2 = lines2.index("terminals") if "terminals" in lines2 else len(lines2)
+                gtext = "\n".join(lines2[:k2] + lines[k:])
+                ctx.count("grammars.with_dynamic_marks")
+            batch.append({"grammar": gtext, "inputs": inputs})
         for _ in range(4):
             batch.append(gen_modular(ctx.rng))
             ctx.count("grammars.modular")
